@@ -72,7 +72,13 @@ fn check_kfold(case: &KFoldCase, ctx: &mut Ctx) -> Result<(), Fail> {
     ctx.label(if case.shuffle { "shuffle" } else { "no-shuffle" });
     ctx.label_if(k == n, "k==n");
     let x = id_matrix(n, 1);
-    let cv = KFold::default().with_n_splits(k).with_shuffle(case.shuffle);
+    // builder calls in both orders, and the struct literal (a setter that rebuilds from the defaults would lose
+    // the other setting)
+    let cv = match (n + k) % 3 {
+        0 => KFold::default().with_n_splits(k).with_shuffle(case.shuffle),
+        1 => KFold::default().with_shuffle(case.shuffle).with_n_splits(k),
+        _ => KFold { n_splits: k, shuffle: case.shuffle },
+    };
     ensure!(cv.n_splits() == k, "kfold/n_splits", "n_splits() = {}", cv.n_splits());
     let draws = if case.shuffle { 12 } else { 1 };
     let mut first_folds: BTreeSet<Vec<usize>> = BTreeSet::new();
@@ -235,7 +241,7 @@ fn check_cv(case: &CvCase, ctx: &mut Ctx) -> Result<(), Fail> {
             l.fitted.push(ids.clone());
             Ok(Echo { model, seen: ids.into_iter().collect(), log: &log })
         };
-        let cv = KFold::default().with_n_splits(k).with_shuffle(case.shuffle);
+        let cv = if (n + k) % 2 == 0 { KFold::default().with_n_splits(k).with_shuffle(case.shuffle) } else { KFold::default().with_shuffle(case.shuffle).with_n_splits(k) };
         if mode == 0 {
             // ---- cross_validate
             let scored: RefCell<Vec<(Vec<f64>, Vec<f64>)>> = RefCell::new(vec![]);
